@@ -41,6 +41,15 @@ func main() {
 			}
 			fn.WriteTo(os.Stdout)
 		}
+	case "ginst":
+		// debugging aid: govc ginst <file.smt2> <ground:0|1> <uf:0|1> <level> - print the instantiated script
+		b, _ := os.ReadFile(os.Args[2])
+		src := strings.TrimSuffix(strings.TrimPrefix(string(b), "(set-logic ALL)\n"), "(check-sat)\n")
+		lvl := 1
+		if len(os.Args) > 5 && os.Args[5] == "0" {
+			lvl = 0
+		}
+		fmt.Print("(set-logic ALL)\n" + ginstScriptLevel(src, os.Args[3] == "1", os.Args[4] == "1", lvl) + "(check-sat)\n")
 	case "verify":
 		cmdVerify(os.Args[2:])
 	case "manifest":
